@@ -1064,6 +1064,14 @@ fn foreign_cases() -> Vec<Case> {
         p.terms[0].filters.push(f)
     });
     m("term-order", &|p| p.terms.reverse());
+    for fam in ["evpn", "iso", "inet-vpn", "inet6 ", "INET"] {
+        m(&format!("extra-family-term-{}", fam.trim()), &|p| {
+            p.terms.push(JTerm { name: fam.into(), family: Some(fam.into()), filters: vec![], accept: true })
+        });
+        m(&format!("extra-family-term-first-{}", fam.trim()), &|p| {
+            p.terms.insert(0, JTerm { name: fam.into(), family: Some(fam.into()), filters: vec![], accept: true })
+        });
+    }
     m("no-terms", &|p| p.terms.clear());
     v.push(("dup-policy".into(), vec![good.clone(), good.clone()]));
     let mut nr = good.clone();
@@ -1413,6 +1421,9 @@ pub fn main(opts: &Opts) {
                 }
                 None => ("err".to_string(), "err".to_string(), None),
             };
+            if !l.case.agent && (prop == "all" || prop == "C02") {
+                sink.spec(&w.case_id, format!("plan specx {} {}", enc_cfg(&l.cfg), w.enc_pl));
+            }
             if l.case.agent {
                 let cfg_s = enc_cfg(&l.cfg);
                 let run_s = enc_running(&w.running);
